@@ -73,6 +73,12 @@ ANALYSIS_RAISES = (
     b"cverif_sink\nsink\n(S'tagY'\ntRF1.0\n.",  # flagged call followed by unsupported opcode
     b"(cverif_sink\nsink\nS'tagZ'\nob",  # truncated
     b"]q\x00h\x00a.",  # cyclic list
+    # the stock unpickler accepts these, fickling's analysis cannot even tokenise / model them:
+    "cverif_sink\ns\u00ednk\n(S'tagU'\ntR.".encode("utf-8"),  # non-ASCII global name first
+    b"F1.5\n0cverif_sink\nsink\n(S'tagF'\ntR.",  # unsupported FLOAT first, then a call
+    b"\x96\x01\x00\x00\x00\x00\x00\x00\x00x0cverif_sink\nsink\n(S'tagB'\ntR.",  # BYTEARRAY8 first
+    b"cverif_sink\nsink\n(S'tagP'\ntRPpid\n.",  # call, then PERSID
+    b"(cverif_sink\nsink\nS'tagA'\no]\x94(K\x01e\x81.",
 )
 MALICIOUS = b"cverif_sink\nsink\n(S'pwn'\ntR."
 
